@@ -59,7 +59,7 @@ def dec_cases(tier, seed):
         name = rnd.choice(NAMES) if rnd.random() < 0.7 else ''.join(
             rnd.choice('abcdefghijklmnopqrstuvwxyz0123456789-_') for _ in range(rnd.randint(1, 8)))
         cases.append(('valid', name, spell_name(rnd, name)))
-    alpha = list('\\\\\\\\aAfFgGzZ019 \t\n\r\f-_(@:') + ['\\0', '\\00', '\\41', '\\061 ', '\\110000', '\\d800', 'é', '\\\n']
+    alpha = list('\\\\\\\\aAfFgGzZ019 \t\n\r\f-_(@:') + ['\\0', '\\00', '\\41', '\\061 ', '\\110000', '\\d800', 'é', '\\\n', '\x0b', '\x1c', '\xa0', '\u3000']
     from css_parser.tokenize2 import Tokenizer
     for _ in range(n):
         t = ''.join(rnd.choice(alpha) for _ in range(rnd.randint(1, 12)))
